@@ -20,6 +20,9 @@ PID = "C14"
 FIELDS_MAP = ["psigs", "bip32", "ripemd", "sha256", "hash160", "hash256", "tapsigs", "tapscripts",
               "taporigins", "prop", "unknown"]
 SANITY_CLASSES = (2, 3, 4)
+# Verdicts that are recorded but are not violations of C14: the finalizer took utxo data that NO
+# checked update had accepted (a signer that does not do BIP174's utxo checks signed for it).
+OBSERVATION_KEYS = ("unchecked-utxo-finalized",)
 
 
 # ------------------------------------------------------------------ harness
@@ -109,6 +112,10 @@ class Gen:
             f[k] = None if a[k] is None else I(a[k])
         self.inp_fields[iid] = f
         return f
+
+    def utxo_sig(self, iid):
+        f = self.fields(iid)
+        return (f["nw"], f["w"])
 
     def is_final(self, iid):
         f = self.fields(iid)
@@ -247,7 +254,7 @@ def build_gen(data, hists):
     n_tries = 0
     for h in hists:
         c = data["case"][h["case"]]
-        tx = g.I(c["tx"])
+        tx = g.I(h.get("tx", c["tx"]))     # the unsigned tx of THIS history (one directed kind alters an outpoint)
         tries, interps = oracle_tables(g, h, mall_of)
         n_tries += len(tries)
         tl, seen = [], set()
@@ -256,7 +263,9 @@ def build_gen(data, hists):
             if key in global_try and global_try[key] != oc:
                 conflicts.append((h["id"], key, global_try[key], oc))
             global_try.setdefault(key, oc)
-            k2 = (tx, st[i], i, m)
+            # same own fields, same utxo view of every input (taproot sighashes commit to all
+            # prevouts as the PSBT presents them), other inputs' remaining fields free
+            k2 = (tx, tuple(g.utxo_sig(x) for x in st), st[i], i, m)
             own_try.setdefault(k2, {})
             own_try[k2].setdefault(oc, h["id"])
             if (st, i, m) in seen:
@@ -366,6 +375,10 @@ def report_monitor_violations(rep, data, seed, tier):
     n = 0
     for h in data["hist"]:
         for v in h["viol"]:
+            if v["key"] in OBSERVATION_KEYS:
+                data.setdefault("observations", collections.Counter())[v["key"]] += 1
+                data.setdefault("observation_example", {}).setdefault(v["key"], "history %d (case %d, %s) step %d: %s" % (h["id"], h["case"], h["kind"], v["step"], v["what"]))
+                continue
             n += 1
             rep.violation(v["key"], "history %d (case %d, %s) step %d: %s" % (h["id"], h["case"], h["kind"], v["step"], v["what"]),
                           replay_obj(data, h, seed, tier, {"failing_step": v["step"], "what": v["what"], "key": v["key"]}), True)
@@ -457,7 +470,7 @@ def run(rep, tier, seed, replay):
                     kinds.setdefault(opk, []).append((h, step, what))
                 for opk, lst in kinds.items():
                     h, step, what = lst[0]
-                    found = bool(h["viol"])
+                    found = any(v["key"] not in OBSERVATION_KEYS for v in h["viol"])
                     desc = {1: "result class", 2: "state", 3: "result class and state", 4: "number of steps"}.get(what, "?")
                     rep.violation("tie:%s" % opk,
                                   "model and implementation disagree on the %s after step %d (%s) of history %d; %d histories differ at a `%s` step" % (
@@ -512,6 +525,9 @@ def run(rep, tier, seed, replay):
         "finalize_inp_mall_mut_allows_malleable": meta["mall_true"],
         "finalized_input_keeps_unknown_fields": meta["keep_unknown"],
         "mall_probe": data["mall"],
+        "observations_not_violations": dict(data.get("observations", {})),
+        "observation_examples": data.get("observation_example", {}),
+        "both_utxo_field_histories": dict((k, v) for k, v in collections.Counter(h["kind"] for h in data["hist"]).items() if k.startswith("utxo-")),
         "samples": samples,
     })
     rep.assumptions = [
@@ -539,6 +555,8 @@ def run_replay(rep, hbin, tier, seed, path):
         if "history" in r and h["id"] != r["history"]:
             continue
         for v in h["viol"]:
+            if v["key"] in OBSERVATION_KEYS:
+                continue
             n += 1
             rep.violation(v["key"], "replayed history %d step %d: %s" % (h["id"], v["step"], v["what"]),
                           replay_obj(data, h, rseed, rtier, {"failing_step": v["step"], "what": v["what"], "key": v["key"]}), True)
